@@ -224,6 +224,9 @@ Inductive op :=
 | OSnapReq (c t i : N) (content : option journal)
                              (* ApplyRemoteSnapshot(skip = false); content = the checkpoint found at apply time *)
 | OSkipReq (c t i : N)       (* ApplyRemoteSnapshot(skip = true) *)
+| OSnapExpire (c : N)
+    (* a time-out of the status machine fires (syncStateTimeout, 5 minutes): the record of cluster c may be replaced;
+       modelled as its removal, at any moment *)
 | OSnapRpc (o : op).
     (* the grpc handlers NotifyTransferSnap / NotifyApplySnap around o = OXfer / OSnapReq / OSkipReq on a healthy
        single leader: pre-filter on (term, index), then the request, whose proposal is committed and applied before
@@ -314,6 +317,8 @@ Definition step0 (nd : node) (o : op) : node * res :=
       end
   | OSkipReq c t i =>
       (with_pending nd (n_pending nd ++ [LSkip (mkS c t i snap_ts 0)]), ROk)
+  | OSnapExpire c =>
+      (with_snaps nd (filter (fun x => negb (fst x =? c)) (n_snaps nd)), ROk)
   end.
 
 Definition snap_req_pos (o : op) : option (N * N * N) :=
